@@ -654,6 +654,36 @@ fn gen_nr(thorough: bool, rng: &mut Rng) -> Result<(), String> {
             let p = build_proof(&rd, &hybrid, &req, Some(&reg1), &nonce)?;
             let r = verify_with(&rd, &req, &p.proof, &nonce, Some(&rc), Some(&reg1));
             emit_case(&format!("nr/{}/hybrid", run), &rd, &rc, &req, &hybrid, &p.proof, &p.ctape, &nonce, &valid1, &reg1, &r, false, "transplanted_non_revocation_part", None);
+            // re-based hybrid (DESIGN 4/C10 (ii), confirmed by a seventh-round seeding agent): (A*Rctxt^-k, e, v) signs
+            // the context m2_A + k*e; k is chosen so that the new context is congruent to m2_B modulo the group
+            // order, the non-revocation credential and witness are the valid holder's, the ordinary builder proves
+            {
+                let dec = |v: &Value| bn::BigNumber::from_dec(v.as_str().unwrap_or("")).map_err(e);
+                let sa = jv(&a.cred.sig);
+                let sb = jv(&b.cred.sig);
+                let pkj = jv(&rd.cd.pk);
+                let n = dec(&pkj["p_key"]["n"])?;
+                let rctxt = dec(&pkj["p_key"]["rctxt"])?;
+                let q = bn::BigNumber::from_hex("2523648240000001BA344D8000000007FF9F800000000010A10000000000000D").map_err(e)?;
+                let m2_a = dec(&sa["p_credential"]["m_2"])?;
+                let m2_b = dec(&sb["p_credential"]["m_2"])?;
+                let ee = dec(&sa["p_credential"]["e"])?;
+                let aa = dec(&sa["p_credential"]["a"])?;
+                let diff = m2_b.add(&q).map_err(e)?.sub(&m2_a.modulus(&q).map_err(e)?).map_err(e)?.modulus(&q).map_err(e)?;
+                let k = diff.mod_mul(&ee.modulus(&q).map_err(e)?.inverse(&q).map_err(e)?, &q).map_err(e)?;
+                let m2_new = m2_a.add(&k.mul(&ee).map_err(e)?).map_err(e)?;
+                let a_new = aa.mod_mul(&rctxt.mod_exp(&k, &n).map_err(e)?.inverse(&n).map_err(e)?, &n).map_err(e)?;
+                let mut sj = sa.clone();
+                sj["p_credential"]["m_2"] = json!(m2_new.to_dec().map_err(e)?);
+                sj["p_credential"]["a"] = json!(a_new.to_dec().map_err(e)?);
+                sj["r_credential"] = sb["r_credential"].clone();
+                let rebased = Holder { idx: b.idx, known: a.known.clone(),
+                    cred: Credential { sig: from_jv(&sj)?, values: a.cred.values.try_clone().map_err(e)?, witness: b.cred.witness.clone(), delta: None, rev_idx: Some(b.idx) },
+                    wview: b.wview.clone(), factors_vr: String::new() };
+                let pr = build_proof(&rd, &rebased, &req, Some(&reg1), &nonce)?;
+                let rr = verify_with(&rd, &req, &pr.proof, &nonce, Some(&rc), Some(&reg1));
+                emit_case(&format!("nr/{}/hybrid-rebased", run), &rd, &rc, &req, &rebased, &pr.proof, &pr.ctape, &nonce, &valid1, &reg1, &rr, false, "rebased_context_transplant", None);
+            }
             let m2a = vf::GroupOrderElement::from_string(jv(&a.cred.sig)["r_credential"]["m2"].as_str().unwrap_or("")).map_err(e)?;
             let m2b = vf::GroupOrderElement::from_string(jv(&b.cred.sig)["r_credential"]["m2"].as_str().unwrap_or("")).map_err(e)?;
             let ch = bn::BigNumber::from_dec(p.proof["aggregated_proof"]["c_hash"].as_str().unwrap_or("")).map_err(e)?;
